@@ -273,6 +273,7 @@ def _val_chunk(spec_dir, module, cfg, path, n_events, props, tag, extra_env, hea
     start = 1
     outs = []
     overflow = []
+    restarts = 0
     guard = 0
     while start <= n_events:
         env = dict(TRACE=path, PROPS=props, START=start)
@@ -293,9 +294,23 @@ def _val_chunk(spec_dir, module, cfg, path, n_events, props, tag, extra_env, hea
             if guard > 200:
                 raise ToolError("too many overflow restarts")
             continue
+        # an INVARIANT of the trace specification is violated by the state an event induces: that is a verdict
+        # (reported like a REJECT of the event), not a tool failure; validation resumes after the event
+        inv = re.search(r"Invariant (\w+) is violated", out)
+        if inv and m:
+            bad = int(m.group(1))
+            eid = ids[bad - 1] if 0 < bad <= len(ids) else str(bad)
+            first = props.split(",")[0]
+            outs.append(f'<<"REJECT", "{first}", "{eid}", "invariant {inv.group(1)} of the specification is violated by the state this event induces", {bad}>>\n')
+            start = bad + 1
+            guard += 1
+            restarts += 1
+            if guard > 200:
+                raise ToolError("too many invariant restarts")
+            continue
         log(out[-5000:])
         raise ToolError(f"VAL {module} failed rc={rc} on {path}")
-    return outs, overflow
+    return outs, overflow, restarts
 
 
 def validate(spec_dir, module, cfg, events, props, tag, chunks=8, extra_env=None, cost=None, heads=(), group=None):
@@ -341,8 +356,9 @@ def validate(spec_dir, module, cfg, events, props, tag, chunks=8, extra_env=None
         futs = [ex.submit(_val_chunk, spec_dir, module, cfg, p, n, props, tag, extra_env, heads, ids)
                 for (p, n, ids) in jobs]
         for f in futs:
-            outs, overflow = f.result()
+            outs, overflow, restarts = f.result()
             v.overflow_ids += overflow
+            v.restarts = getattr(v, "restarts", 0) + restarts
             for out in outs:
                 g, dst = tlc_counts(out)
                 v.generated += g
@@ -358,7 +374,7 @@ def validate(spec_dir, module, cfg, events, props, tag, chunks=8, extra_env=None
                 for a in tuples(out, "ACCEPTED"):
                     v.accepted += a[1]
     v.wall = time.time() - t0
-    if not v.overflow_ids and v.accepted != len(events):
+    if not v.overflow_ids and not getattr(v, "restarts", 0) and v.accepted != len(events):
         raise ToolError(f"VAL {module}: consumed {v.accepted} of {len(events)} events")
     return v
 
